@@ -55,6 +55,8 @@ HISTORIES = {
     'ehlo-auth': [EHLO, AUTH],
     'none': [],
     'ehlo-ehlo': [EHLO, EHLO],
+    'ehlo-rset': [EHLO, RSET],
+    'ehlo-rset-noop': [EHLO, RSET, NOOP],
 }
 TLS_CONT = {
     'noop-quit': [NOOP, QUIT],
@@ -65,6 +67,9 @@ TLS_CONT = {
     'again': [STLS, EHLO, STLS, QUIT],
     'nothing': [],
     'vrfy': [VRFY, RSET, QUIT],
+    # commands that write their own target state (RSET) or depend on the one recorded before the handshake
+    'rset-mail': [RSET, MAIL, RALICE, DATA, QUIT],
+    'rset-rset-mail': [RSET, RSET, MAIL, QUIT],
 }
 SUFFIXES = [NOOP, VRFY, QUIT, MAIL, EHLO + MAIL + RALICE + DATA, b'Q', CR, b'\n', b'\x16\x03\x01\x00\x05hello', GARB, RSET + NOOP]
 
@@ -210,6 +215,9 @@ def gen_tls(ctx):
                 mid = [S(STLS + suf), WT] if place == 'same' else [S(STLS), S(suf), WT]
                 clean = suf.endswith(CR) and suf[:1] != b'\x16'
                 add(Case('tls', clear=[WT] + lock(HISTORIES[hn]) + mid + lock([QUIT]), hs=['o'], tls=lock([NOOP, EHLO, MAIL, QUIT]), clean=clean), 'pipelined:%s' % place)
+                # the same session without the clear-text suffix (see twins())
+                cases[-1].twin = Case('tls', clear=[WT] + lock(HISTORIES[hn] + [STLS]), hs=['o'], tls=lock([NOOP, EHLO, MAIL, QUIT]))
+                cases[-1].twin.tag = 'twin'
     # failed handshakes: garbage, close, silence; then clear text again
     for hn in ('ehlo', 'ehlo-tx-rset', 'ehlo-msg'):
         for h in ('g', 'c', 't'):
@@ -480,6 +488,33 @@ def job(ctx, name, binary, pki, cases):
     return res
 
 
+def twins(ctx, binary, pki, cases, res):
+    """The property as a relation between two runs of the implementation (no model): whenever the
+    server completes the handshake although clear text followed the STARTTLS line, everything that
+    happens inside TLS (replies, hand-offs) must be what happens in the session in which that clear
+    text was never sent - otherwise some of it was executed."""
+    pend = []
+    for (c, o, d, p), case in zip(res, cases):
+        tw = getattr(c, 'twin', None)
+        if tw is not None and "('t'," in o:
+            pend.append((c, o, tw))
+    ctx.count('twin-runs', len(pend))
+    if not pend:
+        return
+    rs = W.run_tls_sessions(ctx, binary, pki, [tw for _, _, tw in pend])
+    got = W.run_tls_sessions(ctx, binary, pki, [c for c, _, _ in pend])
+    fails = []
+    for (c, o, tw), r0, r1 in zip(pend, rs, got):
+        a = [(ch, code) for ch, code, _ in r0['replies'] if ch == 't']
+        b = [(ch, code) for ch, code, _ in r1['replies'] if ch == 't']
+        if r0['clienterr'] or r1['clienterr'] or not a:
+            continue
+        if a != b or [h for h in r0['handoffs'] if h] != [h for h in r1['handoffs'] if h]:
+            fails.append((c.dumps(), 'inside TLS: %s; without the clear-text suffix: %s' % (b, a),
+                          'fails no_cleartext_survives:tls-session-differs-from-the-session-without-the-clear-text-suffix'))
+    vlib.handle_results(ctx, 'tls:twins', 'two runs of the real server', [], fails)
+
+
 def corpus_cases():
     out = []
     cdir = os.path.join(vlib.VERIF, 'corpus', 'C17')
@@ -502,7 +537,8 @@ def run(ctx):
         job(ctx, 'script:corpus', binary, pki, [c for c in corp if c.mode == 'script'])
         job(ctx, 'tls:corpus', binary, pki, [c for c in corp if c.mode == 'tls'])
         job(ctx, 'script', binary, pki, gen_script(ctx))
-        job(ctx, 'tls', binary, pki, gen_tls(ctx))
+        tc = gen_tls(ctx)
+        twins(ctx, binary, pki, tc, job(ctx, 'tls', binary, pki, tc))
         job(ctx, 'cert', binary, pki, gen_cert(ctx))
     if not ctx.quick():
         vlib.leanchecker(ctx, ['QsmtpModel.Props.C17', 'QsmtpModel.Lemmas.StartTlsSrv', 'QsmtpModel.Lemmas.StartTlsSrvTls', 'QsmtpModel.Lemmas.StartTlsCert'])
